@@ -316,13 +316,15 @@ std::string applyEdit(std::string doc, Src &src, std::string &label)
         break;
     }
     case 7: { // foreign attribute / attribute in a namespace
-        static const std::vector<std::string> what = {"<variable ", "<component ", "<units ", "<unit ", "<reset ", "<map_variables ", "<connection ", "<import ", "<model "};
+        static const std::vector<std::string> what = {"<variable ", "<component ", "<units ", "<unit ", "<reset ", "<map_variables ", "<connection ", "<import ", "<model ", "<component_ref ", "<encapsulation", "<test_value", "<reset_value"};
         static const std::vector<std::string> junk = {" bogus=\"1\"", " xmlns:q=\"urn:q\" q:attr=\"1\"", " cellml:name=\"x\" xmlns:cellml=\"http://www.cellml.org/cellml/2.0#\"", " id=\"dup\"", " units=\"second\"", " name=\"again\""};
         auto occ = findAll(doc, src.pick(what));
         if (!occ.empty()) {
-            size_t p = doc.find(' ', src.pick(occ));
-            doc.insert(p, src.pick(junk));
-            label = "foreign-attribute";
+            size_t p = doc.find_first_of(" />", src.pick(occ) + 1);
+            if (p != std::string::npos) {
+                doc.insert(p, src.pick(junk));
+                label = "foreign-attribute";
+            }
         }
         break;
     }
@@ -386,7 +388,7 @@ std::string applyEdit(std::string doc, Src &src, std::string &label)
         break;
     }
     case 14: {
-        static const std::vector<std::string> what = {"<component ", "<units ", "<connection ", "<encapsulation", "<reset ", "<import ", "<math ", "<test_value", "<reset_value", "<component_ref "};
+        static const std::vector<std::string> what = {"<component ", "<units ", "<connection ", "<encapsulation", "<reset ", "<import ", "<math ", "<test_value", "<reset_value", "<component_ref ", "<map_variables ", "<variable ", "<unit "};
         std::string w = src.pick(what);
         auto occ = findAll(doc, w);
         if (!occ.empty()) {
@@ -467,7 +469,15 @@ std::string applyEdit(std::string doc, Src &src, std::string &label)
         if (!occ.empty()) {
             size_t p = src.pick(occ);
             size_t e = doc.find("</connection>", p);
-            if (e != std::string::npos) {
+            if (src.flip(40)) { // a connection of a component with itself
+                std::string c1 = attrValueAt(doc, p, "component_1");
+                size_t a = doc.find(" component_2=\"", p);
+                if (a != std::string::npos && (e == std::string::npos || a < e)) {
+                    size_t q = doc.find('"', a + 14);
+                    doc.replace(a + 14, q - a - 14, c1);
+                    label = "connection-self";
+                }
+            } else if (e != std::string::npos) {
                 std::string el = doc.substr(p, e + 13 - p);
                 doc.insert(p, el);
                 label = "connection-duplicate";
